@@ -761,6 +761,16 @@ func c23Adjacent(c *Ctx, f *ssa.Function, what string, rejects func(cmp int64) b
 					okAdj = true
 				}
 			}
+			// or written from the earlier element: (i, i+1)
+			if b, ok := stripConv(idx[1]).(*ssa.BinOp); ok && b.Op == token.ADD {
+				x, y := stripConv(b.X), stripConv(b.Y)
+				if k, isK := constInt(x); isK && k == 1 {
+					x, y = y, x
+				}
+				if k, isK := constInt(y); isK && k == 1 && x == stripConv(idx[0]) {
+					okAdj = true
+				}
+			}
 		}
 	})
 	bad := ""
